@@ -1,7 +1,7 @@
 #!/bin/sh
 # seed_eval.sh <seeded-dir> [props...]: apply seeded/<id>/patch.diff to /repo, run the quick checks of the
 # given properties (default: the property named in meta.json), print their verdict lines, undo the patch.
-D="$1"; shift
+D="$(cd "$1" && pwd)"; shift
 PROPS="$@"
 [ -z "$PROPS" ] && PROPS=$(python3 -c "import json,sys;print(json.load(open('$D/meta.json'))['property'])")
 cd /repo || exit 2
